@@ -72,6 +72,8 @@ type world struct {
 	missing map[string]bool   // lookup fails for these
 	srv     *httptest.Server
 	cached  bool // chunk cache answers GetChunk
+	slices  bool // chunk cache answers GetChunkSlice (with exactly the asked slice when it lies inside the blob)
+	mc      *wdclient.MasterClient
 }
 
 func newWorld() *world {
@@ -88,6 +90,9 @@ func newWorld() *world {
 		// like a volume server: whole blob, or the byte range asked for by a Range header
 		http.ServeContent(rw, r, "", time.Time{}, bytes.NewReader(b))
 	}))
+	// a master client whose vid map already knows volume 1 (ReadAll, NewChunkStreamReaderFromFiler)
+	w.mc = wdclient.NewMasterClient(nil, "verif", "", 0, "", nil)
+	w.mc.VerifAddLocation(1, wdclient.Location{Url: strings.TrimPrefix(w.srv.URL, "http://"), PublicUrl: strings.TrimPrefix(w.srv.URL, "http://")})
 	return w
 }
 
@@ -126,7 +131,22 @@ func (w *world) GetChunk(fileId string, minSize uint64) []byte {
 	defer w.mu.RUnlock()
 	return w.blobs[fileId]
 }
-func (w *world) GetChunkSlice(fileId string, offset, length uint64) []byte { return nil }
+func (w *world) GetChunkSlice(fileId string, offset, length uint64) []byte {
+	if !w.slices {
+		return nil
+	}
+	w.mu.RLock()
+	defer w.mu.RUnlock()
+	b := w.blobs[fileId]
+	if offset+length > uint64(len(b)) {
+		return nil
+	}
+	sliceHits++
+	return b[offset : offset+length]
+}
+
+var sliceHits int
+
 func (w *world) SetChunk(fileId string, data []byte)                       {}
 
 // store the tree's manifests (serialized exactly like mergeIntoManifest does) and data
@@ -257,6 +277,65 @@ type spec struct {
 	mt       int64
 	slack    int
 	cached   bool
+	slices   bool
+	xwindows []window   // windows whose offset+size exceeds MaxInt64 (views and streams only)
+	csrOps   [][]csrOp  // ChunkStreamReader call sequences
+}
+
+type csrOp struct {
+	read   bool
+	n      int   // Read: len(p)
+	off    int64 // Seek
+	whence int
+}
+
+func zs(v int64) string {
+	if v < 0 {
+		return fmt.Sprintf("(%d)%%Z", v)
+	}
+	return fmt.Sprintf("%d%%Z", v)
+}
+
+// run one call sequence on a fresh ChunkStreamReader; stops at the first panic
+func runCsr(w *world, chunks []*filer_pb.FileChunk, ops []csrOp) (string, string) {
+	rd := filer.NewChunkStreamReaderFromFiler(w.mc, chunks)
+	var opS, obS []string
+	for _, op := range ops {
+		if op.read {
+			opS = append(opS, fmt.Sprintf("OpRead %d", op.n))
+		} else {
+			opS = append(opS, fmt.Sprintf("OpSeek %s %s", zs(op.off), n(uint64(op.whence))))
+		}
+	}
+	for _, op := range ops {
+		panicked := false
+		func() {
+			defer func() {
+				if recover() != nil {
+					panicked = true
+				}
+			}()
+			if op.read {
+				buf := make([]byte, op.n)
+				got, err := rd.Read(buf)
+				if err != nil && err != io.EOF {
+					panic(fmt.Sprintf("unexpected Read error: %v", err))
+				}
+				obS = append(obS, fmt.Sprintf("ObsRead (%s) %s", nl(buf[:got]), hx.Bool(err == io.EOF)))
+			} else {
+				pos, err := rd.Seek(op.off, op.whence)
+				if err != nil && err != io.ErrUnexpectedEOF {
+					panic(fmt.Sprintf("unexpected Seek error: %v", err))
+				}
+				obS = append(obS, fmt.Sprintf("ObsSeek %s %s", zs(pos), hx.Bool(err != nil)))
+			}
+		}()
+		if panicked {
+			obS = append(obS, "ObsPanic")
+			break
+		}
+	}
+	return lst(opS), lst(obS)
 }
 
 func totalSize(gs []*gchunk) int64 {
@@ -272,6 +351,7 @@ func totalSize(gs []*gchunk) int64 {
 func runCase(w *world, s *spec, out *hx.Out) {
 	w.reset()
 	w.cached = s.cached
+	w.slices = s.slices
 	w.install(s.top, s.data, s.missing)
 
 	var ms, flat []string
@@ -289,8 +369,9 @@ func runCase(w *world, s *spec, out *hx.Out) {
 
 	vis, err := filer.NonOverlappingVisibleIntervals(w.lookup, pbs(s.top), 0, math.MaxInt64)
 	ivis := filer.VerifVisibles(vis)
-	var views, reads, streams []string
+	var views, reads, streams, xviews, csrs []string
 	compacted, garbage, manChunks, manSaved, manVis := "nil", "nil", "nil", "nil", "nil"
+	readall, callKeep, callGarb := "nil", "nil", "nil"
 	if err == nil {
 		full := filer.ViewFromChunks(w.lookup, pbs(s.top), 0, math.MaxInt64)
 		reader := filer.NewChunkReaderAtFromClient(w.lookup, full, w, s.fileSize)
@@ -319,6 +400,12 @@ func runCase(w *world, s *spec, out *hx.Out) {
 		// StreamContent (the HTTP GET path) on the same windows, and once "to the end"
 		swins := append([]window{}, s.windows...)
 		swins = append(swins, window{0, math.MaxInt64, 0})
+		swins = append(swins, s.xwindows...)
+		for _, win := range s.xwindows {
+			vs := filer.ViewFromChunks(w.lookup, pbs(s.top), win.off, win.size)
+			xviews = append(xviews, fmt.Sprintf("W %s %s (%s)", ni(win.off), ni(win.size), coqViews(vs)))
+			out.Count("xview", 1)
+		}
 		for _, win := range swins {
 			var sb bytes.Buffer
 			if serr := filer.StreamContent(w, &sb, pbs(s.top), win.off, win.size); serr != nil {
@@ -327,6 +414,23 @@ func runCase(w *world, s *spec, out *hx.Out) {
 			streams = append(streams, fmt.Sprintf("St %s %s (%s)", ni(win.off), ni(win.size), nl(sb.Bytes())))
 			out.Count("stream", 1)
 		}
+
+		// ReadAll and ChunkStreamReader through a real master client with a pre-filled vid map
+		all, aerr := filer.ReadAll(w.mc, pbs(s.top))
+		if aerr != nil {
+			panic(fmt.Sprintf("unexpected ReadAll error: %v", aerr))
+		}
+		readall = nl(all)
+		for _, ops := range s.csrOps {
+			a, b := runCsr(w, pbs(s.top), ops)
+			csrs = append(csrs, fmt.Sprintf("Cs (%s) (%s)", a, b))
+			out.Count("csr", 1)
+			if strings.Contains(b, "ObsPanic") {
+				out.Count("csr:panic", 1)
+			}
+		}
+		ck, cg := filer.CompactFileChunks(w.lookup, pbs(s.top))
+		callKeep, callGarb = coqChunksPb(ck), coqChunksPb(cg)
 
 		_, nonManifest := filer.SeparateManifestChunks(pbs(s.top))
 		keep, garb := filer.CompactFileChunks(w.lookup, nonManifest)
@@ -365,15 +469,17 @@ func runCase(w *world, s *spec, out *hx.Out) {
 	topS := coqChunksPb(pbs(s.top))
 	term := fmt.Sprintf("{| k_ms := %s; k_chunks := %s; k_flat := %s; k_fuel := %d; k_store := %s; k_file_size := %s; "+
 		"k_factor := %d; k_next := %s; k_mt := %s; i_vis := %s; i_err := %s; i_views := %s; i_reads := %s; i_streams := %s; "+
+		"i_xviews := %s; i_readall := %s; i_csr := %s; i_call_keep := %s; i_call_garb := %s; "+
 		"i_compacted := %s; i_garbage := %s; i_man_chunks := %s; i_man_saved := %s; i_man_vis := %s |}",
 		lst(ms), topS, lst(flat), depth+s.slack, lst(store), ni(s.fileSize),
 		s.factor, n(s.next), ni(s.mt), coqVis(ivis), hx.Bool(err != nil), lst(views), lst(reads), lst(streams),
+		lst(xviews), readall, lst(csrs), callKeep, callGarb,
 		compacted, garbage, manChunks, manSaved, manVis)
 	ws := make([]string, len(s.windows))
 	for i, win := range s.windows {
 		ws[i] = fmt.Sprintf("%d+%d/%d", win.off, win.size, win.fill)
 	}
-	canon := fmt.Sprintf("%s|ms=%s|fs=%d|k=%d|w=%s|miss=%d", topS, strings.Join(ms, ";"), s.fileSize, s.factor, strings.Join(ws, ","), len(s.missing))
+	canon := fmt.Sprintf("%s|ms=%s|fs=%d|k=%d|w=%s|miss=%d|csr=%v|xw=%v", topS, strings.Join(ms, ";"), s.fileSize, s.factor, strings.Join(ws, ","), len(s.missing), s.csrOps, s.xwindows)
 	out.Count(fmt.Sprintf("leaves:%02d", len(flat)), 1)
 	out.Count(fmt.Sprintf("depth:%d", depth), 1)
 	out.Count(fmt.Sprintf("visibles:%02d", len(ivis)), 1)
@@ -430,14 +536,66 @@ func someWindows(fs int64, r *hx.Rng, k int, edges []int64) []window {
 	return ws
 }
 
+// windows that end beyond MaxInt64 (the int64 sum wraps) and ChunkStreamReader call sequences
+func extras(s *spec, r *hx.Rng, total int64) {
+	o1 := int64(r.Range(1, int(total)+2))
+	o2 := int64(r.Range(1, int(total)+1))
+	s.xwindows = []window{{o1, math.MaxInt64, 0}, {o2, math.MaxInt64 - o2 + 1, 0}, {o1, math.MaxInt64 - int64(r.Intn(int(o1))), 0}}
+	// reader A: Reads only, to the end
+	var a []csrOp
+	for left := total + 3; left > 0; {
+		k := r.PickInt([]int{0, 1, 1, 2, 3, 5, 8, int(total) + 2})
+		a = append(a, csrOp{read: true, n: k})
+		if k == 0 {
+			left--
+		}
+		left -= int64(k)
+	}
+	// reader B: Seeks (mostly SeekStart strictly inside the content) mixed with Reads
+	var b []csrOp
+	for i, k := 0, r.Range(2, 6); i < k; i++ {
+		if r.Chance(1, 2) {
+			b = append(b, csrOp{read: true, n: r.Intn(6)})
+			continue
+		}
+		switch c := r.Intn(12); {
+		case c < 8 && total > 0:
+			b = append(b, csrOp{off: int64(r.Intn(int(total))), whence: io.SeekStart})
+		case c == 8:
+			b = append(b, csrOp{off: total + int64(r.Intn(2)), whence: io.SeekStart})
+		case c == 9 && total > 0:
+			b = append(b, csrOp{off: -int64(r.Range(1, int(total))), whence: io.SeekEnd})
+		default:
+			b = append(b, csrOp{off: int64(r.Intn(3)), whence: io.SeekCurrent})
+		}
+	}
+	b = append(b, csrOp{read: true, n: r.Range(1, 4)})
+	s.csrOps = [][]csrOp{a, b}
+	s.slices = r.Bool()
+}
+
 // decode exhaustive case g of "m chunks over offsets 0..no-1, sizes 1..ns": chunk i (in mtime order) = digit i
-func exhaustive(g int, m, no, ns int, r *hx.Rng, all bool, kind string) *spec {
+func exhaustive(g int, m, no, ns int, r *hx.Rng, all bool, kind string, ties bool) *spec {
 	per := no * ns
 	gs := make([]*gchunk, m)
 	for i := 0; i < m; i++ {
 		d := g % per
 		g /= per
 		gs[i] = &gchunk{key: uint64(i + 1), off: int64(d / ns), size: uint64(d%ns + 1), mtime: int64(i + 1)}
+	}
+	if ties {
+		// mtimes 1,1,2,2,..: equal mtimes are ordered by the file key; keys are a seed-chosen permutation
+		keys := make([]uint64, m)
+		for i := range keys {
+			keys[i] = uint64(i + 1)
+		}
+		for i := m - 1; i > 0; i-- {
+			j := r.Intn(i + 1)
+			keys[i], keys[j] = keys[j], keys[i]
+		}
+		for i := 0; i < m; i++ {
+			gs[i].key, gs[i].mtime = keys[i], int64(i/2+1)
+		}
 	}
 	// list order: a seed-chosen permutation (the sort makes it irrelevant for the overlay)
 	for i := m - 1; i > 0; i-- {
@@ -460,6 +618,7 @@ func exhaustive(g int, m, no, ns int, r *hx.Rng, all bool, kind string) *spec {
 	s.next = 100
 	s.mt = int64(r.Intn(5))
 	s.cached = r.Bool()
+	extras(s, r, totalSize(gs))
 	return s
 }
 
@@ -549,6 +708,12 @@ func randomCase(r *hx.Rng) *spec {
 						mx = c.off + int64(c.size)
 					}
 				}
+				if r.Chance(1, 4) { // a manifest range wider than the hull of its children
+					if d := int64(r.Intn(4)); d <= mn {
+						mn -= d
+					}
+					mx += int64(r.Intn(4))
+				}
 				outNodes = append(outNodes, &gchunk{key: nextKey, off: mn, size: uint64(mx - mn), mtime: int64(r.Intn(4)), manifest: true, children: append([]*gchunk{}, kids...)})
 				nextKey++
 				i += k
@@ -576,6 +741,7 @@ func randomCase(r *hx.Rng) *spec {
 	s.mt = int64(r.Intn(5))
 	s.slack = r.Intn(2)
 	s.cached = r.Bool()
+	extras(s, r, totalSize(leaves))
 	// fault injection: one manifest cannot be fetched -> the resolve error must be reported
 	if levels > 0 && r.Chance(1, 12) {
 		var mans []*gchunk
@@ -609,7 +775,19 @@ func fixedCase(i int, r *hx.Rng) *spec {
 		s.fileSize = 9
 		// {0,7}: the StreamContent witness (hole in the middle); {3,6}: hole at both ends; {2,3}: only a hole
 		s.windows = []window{{0, 7, 0xEE}, {0, 12, 0xEE}, {1, 5, 0xEE}, {3, 6, 0xEE}, {2, 3, 0xEE}, {7, 2, 0xEE}, {8, 4, 0xEE}, {9, 3, 0xEE}, {3, 0, 0xEE}}
-	case 1: // a newer chunk in the middle of an older one, then a cover of everything by the oldest mtime
+		s.csrOps = [][]csrOp{{{read: true, n: 7}}, {{off: 5, whence: io.SeekStart}, {read: true, n: 2}}}
+		s.xwindows = []window{{3, math.MaxInt64, 0}, {6, math.MaxInt64 - 3, 0}}
+	case 1: // finding 1: Seek to the end of a file without holes, then Read
+		s.top = []*gchunk{mk(1, 0, 2, 1), mk(2, 2, 2, 2)}
+		s.fileSize = 4
+		s.windows = allWindows(4, r)
+		s.csrOps = [][]csrOp{{{off: 4, whence: io.SeekStart}, {read: true, n: 2}}, {{read: true, n: 3}, {off: 1, whence: io.SeekStart}, {read: true, n: 5}}}
+	case 2: // finding 2: CompactFileChunks on a list that holds a manifest chunk
+		s.top = []*gchunk{{key: 60, off: 0, size: 4, mtime: 0, manifest: true, children: []*gchunk{mk(1, 0, 4, 1)}}}
+		s.fileSize = 4
+		s.windows = allWindows(4, r)
+		s.csrOps = [][]csrOp{{{read: true, n: 9}}}
+	case 3: // a newer chunk in the middle of an older one, then a cover of everything by the oldest mtime
 		s.top = []*gchunk{mk(3, 0, 10, 2), mk(1, 3, 4, 5), mk(2, 0, 12, 1), mk(4, 2, 2, 7)}
 		s.fileSize = 12
 		s.windows = allWindows(12, r)
@@ -621,11 +799,14 @@ func fixedCase(i int, r *hx.Rng) *spec {
 		s.fileSize = 9
 		s.windows = allWindows(9, r)
 	}
+	if i >= 3 {
+		extras(s, r, s.fileSize)
+	}
 	dataFor(r, s.top, s.data)
 	return s
 }
 
-const nFixed = 3
+const nFixed = 5
 
 func main() {
 	per := flag.Int("per", 250, "cases per shard (must equal the shard size of checks/C17.json): shard k enumerates exhaustive cases k*per..")
@@ -640,7 +821,7 @@ func main() {
 		e3o, e3s, e4o, e4s = 4, 3, 3, 2
 	}
 	e3, e4 = ipow(e3o*e3s, 3), ipow(e4o*e4s, 4)
-	out.Rule = fmt.Sprintf("shard k (seed mod 1000) emits cases k*per.. of the enumeration: %d fixed regression cases; ALL lists of 1 and 2 chunks over offsets 0..7 x sizes 1..4 (mtime order = enumeration order, list order permuted by the seed), with EVERY window (off,len) up to fileSize+2 for views and reads (quick tier: every window for the 1-chunk lists and for the third of the 2-chunk lists selected by the base seed, the full window and 5 seed-chosen windows for the others); ALL lists of 3 chunks over offsets 0..%d x sizes 1..%d and of 4 chunks over offsets 0..%d x sizes 1..%d with the full window and 5 seed-chosen windows; then random trees: <=12 leaf chunks over offsets 0..40, sizes 0..30, mtimes a permutation or ties with distinct keys, occasionally one file id used twice, up to 2 levels of manifests (hull ranges), shuffled, 1/12 of the manifest cases with an unfetchable manifest; every case: visibles, views, ReadAt into a pre-dirtied buffer, StreamContent on the same windows and once with size MaxInt64, CompactFileChunks, doMaybeManifestize with factor 1..4 and re-resolution. non-trivial = no resolve error and >= 2 visible intervals; distinct = canonical input (chunks, manifests, file size, factor, windows)",
+	out.Rule = fmt.Sprintf("shard k (seed mod 1000) emits cases k*per.. of the enumeration: %d fixed cases (0,1,2 = the witnesses of known findings 0,1,2); ALL lists of 1 and 2 chunks over offsets 0..7 x sizes 1..4 (mtime order = enumeration order, list order permuted by the seed), with EVERY window (off,len) up to fileSize+2 for views and reads (quick tier: every window for the 1-chunk lists and for the third of the 2-chunk lists selected by the base seed, the full window and 5 seed-chosen windows for the others); ALL lists of 3 chunks over offsets 0..%d x sizes 1..%d and of 4 chunks over offsets 0..%d x sizes 1..%d with the full window and 5 seed-chosen windows; then random trees: <=12 leaf chunks over offsets 0..40, sizes 0..30, mtimes a permutation or ties with distinct keys, occasionally one file id used twice, up to 2 levels of manifests (hull ranges), shuffled, 1/12 of the manifest cases with an unfetchable manifest; every case: visibles, views, ReadAt into a pre-dirtied buffer, StreamContent on the same windows and once with size MaxInt64, 3 view+stream windows whose offset+size exceeds MaxInt64, ReadAll and two ChunkStreamReader call sequences (Reads to the end; Seeks mixed with Reads) through a real MasterClient with a pre-filled vid map, the chunk cache answering GetChunk / GetChunkSlice in half of the cases each, CompactFileChunks on the whole list and on the non-manifest chunks, a third of the 3-chunk and a quarter of the 4-chunk lists with mtime ties (1,1,2,..) and permuted keys, a quarter of the random manifests with a range wider than the hull, doMaybeManifestize with factor 1..4 and re-resolution. non-trivial = no resolve error and >= 2 visible intervals; distinct = canonical input (chunks, manifests, file size, factor, windows)",
 		nFixed, e3o-1, e3s, e4o-1, e4s)
 	w := newWorld()
 	defer w.srv.Close()
@@ -660,21 +841,28 @@ func main() {
 		case g < nFixed:
 			s = fixedCase(g, r)
 		case g < nFixed+e1:
-			s = exhaustive(g-nFixed, 1, 8, 4, r, true, "exh1")
+			s = exhaustive(g-nFixed, 1, 8, 4, r, true, "exh1", false)
 		case g < nFixed+e1+e2:
 			// every window for all 2-chunk lists (thorough) or for the third of them selected by the base seed (quick)
 			j := g - nFixed - e1
 			allw := out.Tier == "thorough" || uint64(j%3) == (out.Seed/1000)%3
-			s = exhaustive(j, 2, 8, 4, r, allw, "exh2")
+			s = exhaustive(j, 2, 8, 4, r, allw, "exh2", false)
 		case g < nFixed+e1+e2+e3:
-			s = exhaustive(g-nFixed-e1-e2, 3, e3o, e3s, r, false, "exh3")
+			// a seed-rotated third of the 3-chunk lists gets mtimes 1,1,2 with permuted keys (the FileKey tie-break)
+			j := g - nFixed - e1 - e2
+			if uint64(j%3) == (out.Seed/1000+1)%3 {
+				s = exhaustive(j, 3, e3o, e3s, r, false, "exh3-ties", true)
+			} else {
+				s = exhaustive(j, 3, e3o, e3s, r, false, "exh3", false)
+			}
 		case g < nFixed+e1+e2+e3+e4:
-			s = exhaustive(g-nFixed-e1-e2-e3, 4, e4o, e4s, r, false, "exh4")
+			s = exhaustive(g-nFixed-e1-e2-e3, 4, e4o, e4s, r, false, "exh4", (g+int(out.Seed/1000))%4 == 0)
 		default:
 			s = randomCase(r)
 		}
 		runCase(w, s, out)
 	}
+	out.Count("chunk-slice-hits", sliceHits)
 	out.Extra["exhaustive_total"] = nFixed + e1 + e2 + e3 + e4
 	out.Write()
 }
